@@ -7,7 +7,10 @@
 (* over positions of h) - a second, independent formulation.  So a run      *)
 (* that the monitor lets pass cannot contain a Stop before its Start, a     *)
 (* phantom Stop, a re-sent acknowledged Stop within an incarnation, or a    *)
-(* quiescent state with an unaccounted finished session.                    *)
+(* quiescent state with an unaccounted finished session (a Stop that is     *)
+(* merely on disk counts only while the server is still down for it), nor   *)
+(* end in a blocked StopSession / Stop() call that leaves a session without *)
+(* its Stop.                                                                *)
 (***************************************************************************)
 EXTENDS AcctContract, TLC
 
@@ -19,17 +22,21 @@ Sids == 1..NSess
 VARIABLES g, h
 
 E0 == [op |-> "none", call |-> "", typ |-> "", sid |-> 0, ok |-> TRUE, user |-> 0, mac |-> 0, ip |-> 0, port |-> 0, class |-> 0,
-       in_lo |-> <<0, 0>>, in_gw |-> <<0, 0>>, out_lo |-> <<0, 0>>, out_gw |-> <<0, 0>>, durable |-> <<>>, point |-> ""]
+       in_lo |-> <<0, 0>>, in_gw |-> <<0, 0>>, out_lo |-> <<0, 0>>, out_gw |-> <<0, 0>>, durable |-> <<>>, down |-> <<>>, point |-> ""]
 CallE(c, s) == [E0 EXCEPT !.op = "call", !.call = c, !.sid = s]
 RetE(c, s)  == [E0 EXCEPT !.op = "ret", !.call = c, !.sid = s]
 RecvE(t, s) == [E0 EXCEPT !.op = "recv", !.typ = t, !.sid = s, !.user = s, !.mac = s, !.ip = s, !.port = s, !.class = s]
 DropE(t, s) == [E0 EXCEPT !.op = "drop", !.typ = t, !.sid = s]
-QuiE(d) == [E0 EXCEPT !.op = "quiesce", !.durable = d]
+QuiE(d, dn) == [E0 EXCEPT !.op = "quiesce", !.durable = d, !.down = dn]
+\* a blocked call; durable = down = x: the sessions that are excused (other combinations are covered by QuiE)
+HangE(c, s, x) == [E0 EXCEPT !.op = "hang", !.call = c, !.sid = s, !.durable = x, !.down = x]
 DurSeqs == IF NSess = 1 THEN {<<>>, <<1>>} ELSE {<<>>, <<1>>, <<2>>, <<1, 2>>}
 
 Events == {CallE("start", s) : s \in Sids} \cup {RetE("start", s) : s \in Sids} \cup {RetE("stop", s) : s \in Sids}
           \cup {RecvE("start", s) : s \in Sids} \cup {RecvE("stop", s) : s \in Sids} \cup {DropE("stop", s) : s \in Sids}
-          \cup {[E0 EXCEPT !.op = "crash"], [E0 EXCEPT !.op = "boot"], RetE("graceful", 0)} \cup {QuiE(d) : d \in DurSeqs}
+          \cup {[E0 EXCEPT !.op = "crash"], [E0 EXCEPT !.op = "boot"], RetE("graceful", 0)} \cup {QuiE(d, dn) : d \in DurSeqs, dn \in DurSeqs}
+          \cup {HangE("stop", s, x) : s \in Sids, x \in DurSeqs} \cup {HangE("graceful", 0, x) : x \in DurSeqs}
+          \cup {HangE("start", s, <<>>) : s \in Sids}
 
 Init == g = G0(Cfg) /\ h = <<>>
 
@@ -57,6 +64,14 @@ NoDupStop == \A i, j \in DOMAIN h : \A s \in Sids :
 Over(s, i) == \/ \E j \in 1..(i - 1) : h[j] = RetE("stop", s)
               \/ \E j \in 1..(i - 1) : \E k \in (j + 1)..(i - 1) : h[j] = RetE("start", s) /\ IncEnd(k)
 Refusals(s, i) == Cardinality({j \in 1..(i - 1) : h[j] = DropE("stop", s)})
-EventuallyStopped == \A i \in DOMAIN h : (h[i].op = "quiesce" /\ \A s \in Sids : Refusals(s, i) <= Budget)
-                        => \A s \in Sids : Over(s, i) => (\E j \in 1..(i - 1) : IsRecv(j, "stop", s)) \/ s \in RangeOf(h[i].durable)
+\* s was started in the incarnation that is running at position i and no stop has returned for it
+LiveAt(s, i) == \E j \in 1..(i - 1) : /\ h[j] = RetE("start", s)
+                                      /\ \A k \in (j + 1)..(i - 1) : ~IncEnd(k) /\ h[k] # RetE("stop", s)
+\* ... its stop was requested by the call that blocks at position i
+StopRequested(s, i) == /\ h[i].op = "hang" /\ LiveAt(s, i)
+                       /\ (h[i].call = "graceful" \/ (h[i].call = "stop" /\ h[i].sid = s))
+EventuallyStopped == \A i \in DOMAIN h : (h[i].op \in {"quiesce", "hang"} /\ \A s \in Sids : Refusals(s, i) <= Budget)
+                        => \A s \in Sids : (Over(s, i) \/ StopRequested(s, i))
+                                               => \/ \E j \in 1..(i - 1) : IsRecv(j, "stop", s)
+                                                  \/ (s \in RangeOf(h[i].durable) /\ s \in RangeOf(h[i].down))
 =============================================================================
